@@ -1012,6 +1012,11 @@ func (e *Env) expandBoundX(lits []BLit, depth int, done map[*ssa.Call]bool) [][]
 				bind[p] = l.Val(c.Call.Args[i])
 			}
 		}
+		// a predicate made by a function (`stepNamed(name)`): what the closure captured
+		// is the maker's parameter, which stands for the argument of the making call
+		for k, v := range e.makerBindings(&c.Call) {
+			bind[k] = v
+		}
 		nd := map[*ssa.Call]bool{c: true}
 		for k := range done {
 			nd[k] = true
@@ -1419,6 +1424,30 @@ func (e *Env) calleeFn(c *ssa.CallCommon) *ssa.Function {
 		case *ssa.MakeClosure:
 			f, _ := x.Fn.(*ssa.Function)
 			return f
+		case *ssa.Call:
+			// a predicate made by a function of the repository (`stepNamed(name)` returning
+			// `func(n) bool { return n.Step.Name == name }`): the closure every return makes
+			g := x.Call.StaticCallee()
+			if g == nil || !e.P.Funcs[g] || g.Blocks == nil || g.Signature.Results().Len() != 1 {
+				return nil
+			}
+			var made *ssa.Function
+			for _, b := range g.Blocks {
+				rt, isR := b.Instrs[len(b.Instrs)-1].(*ssa.Return)
+				if !isR {
+					continue
+				}
+				mc, isMC := ir.Resolve(rt.Results[0]).(*ssa.MakeClosure)
+				if !isMC {
+					return nil
+				}
+				f, _ := mc.Fn.(*ssa.Function)
+				if made != nil && made != f {
+					return nil
+				}
+				made = f
+			}
+			return made
 		case *ssa.Function:
 			// a method expression's thunk: the method itself (same parameters, receiver first)
 			if strings.HasSuffix(x.Name(), "$thunk") && len(x.Blocks) == 1 {
@@ -1681,4 +1710,40 @@ func nilContradiction(lits []ir.NLit) bool {
 		}
 	}
 	return false
+}
+
+// makerBindings: for a call through a func-typed parameter that is bound to the result
+// of a closure-making function, the maker's parameters bound to the making call's arguments.
+func (e *Env) makerBindings(c *ssa.CallCommon) map[ssa.Value]ssa.Value {
+	if c.StaticCallee() != nil || c.IsInvoke() {
+		return nil
+	}
+	v := c.Value
+	for d := 0; d < 4; d++ {
+		switch x := v.(type) {
+		case *ssa.Parameter:
+			b := ir.Bound(x)
+			if b == nil {
+				return nil
+			}
+			v = b
+		case *ssa.ChangeType:
+			v = x.X
+		case *ssa.Call:
+			g := x.Call.StaticCallee()
+			if g == nil || !e.P.Funcs[g] {
+				return nil
+			}
+			out := map[ssa.Value]ssa.Value{}
+			for i, p := range g.Params {
+				if i < len(x.Call.Args) {
+					out[p] = x.Call.Args[i]
+				}
+			}
+			return out
+		default:
+			return nil
+		}
+	}
+	return nil
 }
